@@ -47,3 +47,8 @@ def enc_bytes(b: bytes) -> str:
 
 import logging as _logging
 _logging.disable(_logging.CRITICAL)      # the library logs every injected fault; the harness reports by itself
+
+
+def dec(tok: str) -> str:
+    """inverse of enc (and of the driver's encStr)"""
+    return "" if tok == "%" else urllib.parse.unquote(tok)
